@@ -6,8 +6,8 @@
    the property does not regard as output - the key order of an unsorted dict, the order of the
    list built from a set - are put in sorted order by the harness).  The verdict names the first
    field that differs.                                                                      *)
-EXTENDS Sequences, Integers, TLC, Json, IOUtils, FiniteSets
-T == JsonDeserialize(IOEnv.TRACE_FILE)
+EXTENDS Sequences, Integers, TLC, Json, IOUtils, FiniteSets, TraceData
+T == TraceData
 VARIABLES i, ph
 Init == i \in 1..Len(T) /\ ph = 0
 Next == ph = 0 /\ ph' = 1 /\ i' = i
